@@ -2042,13 +2042,9 @@ impl<'a, 'b, W: Write> SerializeTupleStruct for TupleSer<'a, 'b, W> {
                         value.serialize(&mut bc)?;
                         self.weak_present = bc.finish()?;
                         if !self.weak_present {
-                            // present == false: emit null and skip field #3
-                            if self.ser.at_line_start {
-                                self.ser.write_indent(self.ser.depth)?;
-                            }
-                            self.ser.out.write_str("null")?;
-                            // Use shared end-of-scalar so pending inline comments (if any) are appended
-                            self.ser.write_end_of_scalar()?;
+                            // present == false: emit null (as any other null scalar, so the pending
+                            // space after `key:` and inline comments are handled) and skip field #3
+                            serde::Serializer::serialize_unit(&mut *self.ser)?;
                             self.skip_third = true;
                         } else {
                             let ptr = self.depth_for_normal;
